@@ -53,6 +53,21 @@ pub fn kind_basic() -> impl Strategy<Value = OpKind> {
         2 => (0u16..5000).prop_map(|len| OpKind::WriteStatic { len }),
         2 => (0u16..5000).prop_map(|len| OpKind::WriteVec { len }),
         3 => (1u16..5000, 0u16..64).prop_map(|(cap, prefill)| OpKind::ReadVec { cap, prefill }),
+        3 => kind_extended(),
+    ]
+}
+
+/// The operation kinds with vectored buffers, message headers, addresses and
+/// out-parameters.
+pub fn kind_extended() -> impl Strategy<Value = OpKind> {
+    prop_oneof![
+        2 => (0u16..2000, 1u16..2000).prop_map(|(a, b)| OpKind::WriteVectored { a, b }),
+        2 => (1u16..2000, 1u16..2000).prop_map(|(a, b)| OpKind::ReadVectored { a, b }),
+        2 => (1u16..2000, any::<bool>()).prop_map(|(len, v6)| OpKind::SendTo { len, v6 }),
+        2 => (1u16..2000).prop_map(|cap| OpKind::RecvFrom { cap }),
+        1 => Just(OpKind::SockOpt),
+        1 => Just(OpKind::Statx),
+        1 => any::<bool>().prop_map(|v6| OpKind::Connect { v6 }),
     ]
 }
 
@@ -63,6 +78,7 @@ pub fn kind_memory() -> impl Strategy<Value = OpKind> {
         2 => (0u16..5000).prop_map(|len| OpKind::WriteStatic { len }),
         4 => (0u16..5000).prop_map(|len| OpKind::WriteVec { len }),
         4 => (1u16..5000, 0u16..64).prop_map(|(cap, prefill)| OpKind::ReadVec { cap, prefill }),
+        6 => kind_extended(),
     ]
 }
 
@@ -74,6 +90,7 @@ pub fn kind_valued() -> impl Strategy<Value = OpKind> {
         3 => (1u16..5000).prop_map(|len| OpKind::WriteStatic { len }),
         3 => (1u16..5000).prop_map(|len| OpKind::WriteVec { len }),
         4 => (1u16..5000, 0u16..64).prop_map(|(cap, prefill)| OpKind::ReadVec { cap, prefill }),
+        4 => kind_extended().prop_filter("valued", |k| k.valued()),
     ]
 }
 
